@@ -7,6 +7,30 @@ ids = [p['id'] for p in props]
 TECH = "contract-based deductive verification: requires/ensures/invariant contracts on the real functions, verification conditions generated from go/ssa by vcgo, discharged by z3/cvc5"
 
 claimed = {
+ "C03": dict(
+   text="Proof that INCMP routing follows the statement for every flag/input/selector combination: runInCmp's contract (ignored once INMATCH is set, READIN set on a miss, exactly one applyTarget on a hit, IndexError on '<' at index 0 counts as no match), runDeadCheck's contract (unmatched input becomes MOVE _catch with an InvalidInputError carrying that input), and a call-site assertion inside Run's loop that INMATCH is clear whenever execution resumes from a HALT. Induction over instructions is Run's loop invariant.",
+   note="Known finding H19 (duplicate selector moves twice) is reported, not hidden. Premises assumed at call sites: no move into the current node. Resource callbacks havoc only their results. Trusted: regex meaning axioms, decoder contracts, vcgo translation, solvers.",
+   ref="4/C03"),
+ "C04": dict(
+   text="Proof that applyTarget implements the documented move table for every target and every stack (moveTable predicate: named node, '_', '^', '.', '>', '<' incl. the failing cases), that the State methods and Rewind (loop invariant) do what the table needs, and that runMove, runInCmp and runCatch change the position only through one applyTarget with the instruction's own target.",
+   note="Regex meaning of node/control targets assumed (axioms); premises: no move into the current node. ExecPath/SizeIdx writers outside State methods are not scanned yet. Trusted: vcgo translation, solvers.",
+   ref="4/C04"),
+ "C05": dict(
+   text="Proof over runLoad/runReload/runMap/refresh/Page.Map/Vm.Reset and the cache contracts: LOAD calls the external function at most once and not at all while the symbol is visible (ghost call counter), stores under uint16(size) at the current scope, a rejected value is neither stored nor mapped; RELOAD calls exactly once and maps the stored value; every successful MOVE/INCMP move leaves the mapping table empty; at every resume the renderer is reset (call-site assertion in Run).",
+   note="Reduced: CATCH does not reset mappings (H21, by reading; not claimed); scope lifetime on ascent follows from applyTarget/Pop contracts. Resource functions assumed to have no effect on session state. Trusted: vcgo translation, solvers.",
+   ref="4/C05"),
+ "C06": dict(
+   text="Proof of the flag contracts at bit level for all indices (Set/Reset/Get/MatchFlag), of IsWriteableFlag (> 5), that refresh leaves flags 0..5 unchanged for every FlagSet/FlagReset list (loop invariants), that CATCH moves exactly when flag state equals mode and CROAK empties the code under the same test, and that Run decodes nothing and changes nothing while TERMINATE is set (call-site gate + blocked postcondition).",
+   note="Premise: flag numbers returned by external code and used in CATCH/CROAK are below the session's flag count. Engine part (exec, runFirst/H24) not yet under contract. Trusted: vcgo translation, 8-bit decomposition facts, solvers.",
+   ref="4/C06"),
+ "C08": dict(
+   text="Proof of the session invariant as Run's loop invariant (VM object consistent, cache scopes distinct/unique/sized, mapping table separate, one cache scope per navigation level) preserved by all twelve instruction handlers, plus automatic no-panic obligations (nil, bounds, nil map, type assertion, explicit panic) in every function of the slice (1500+ obligations).",
+   note="Known findings H22a-c (deliberate panic beyond MaxLevel) and H23 (CROAK breaks lock-step) are reported. Premises as in C03/C06. Byte accounting is proved per cache method in C09 (private to package cache). Engine/render request path beyond Vm.Run not yet covered. Trusted: vcgo translation, stubs for std/third-party, solvers.",
+   ref="4/C08"),
+ "C20": dict(
+   text="Proof that runDeadCheck sets TERMINATE exactly when code runs out outside input handling and that Run is a no-op while TERMINATE is set (blocked postcondition + decode gate).",
+   note="Reduced: engine-side end-of-session handling (setCode, Flush/reset, init) not yet under contract.",
+   ref="4/C20"),
  "C09": dict(
    text="Proof over every Cache method (NewCache, Add, Update, Get, Push, Pop, Reset, frameOf, checkCapacity, ReservedSize, Last, Levels) that the representation invariant is preserved for all inputs: scopes are distinct maps, a symbol lives in at most one scope, every live symbol has a limit, CacheUseSize equals the summed length of all stored values (mod 2^32) and that sum never exceeds the capacity; values over their limit are rejected for every length, rejected calls change nothing, Pop/Reset release exactly the bytes of the scopes they drop. Loops (map ranges, scope scan) are cut by inductive invariants.",
    note="Assumes capacity + value length < 2^32 (precondition). Trusted: vcgo translation, sum lemma library (split/unit/congruence instances named by `use` clauses), generator-instantiated per-map sum update lemmas, logging no-effect, solvers. Keys()/Check()/Invalidate not under contract.",
